@@ -442,3 +442,200 @@ Section Acc.
     intros H. unfold igrow. eapply pk_weaken; [apply (pk_grown d K esize ce H (N.to_nat n) 0%nat C)| | |]; unfold slk; cbn [gcap N.of_nat]; try lia.
   Qed.
 End Acc.
+
+(* ---- 4. the grammar ----------------------------------------------------------------------------------------------------------- *)
+Lemma cN_u8 : consumesN dec_u8 1.  Proof. exact (consN _ _ consumes_u8). Qed.
+Lemma cN_read_u8 : consumesN read_u8 1.  Proof. exact (consN _ _ consumes_read_u8). Qed.
+Lemma cN_hash : consumesN dec_hash 32.  Proof. exact (consN _ _ consumes_hash). Qed.
+Lemma cN_txout : consumesN dec_txout 34.  Proof. exact (consN _ _ consumes_txout). Qed.
+Lemma cN_signature : consumesN dec_signature 64.  Proof. exact (consN _ _ consumes_signature). Qed.
+Lemma cN_ecdh t : consumesN (dec_ecdh t) 8.  Proof. exact (consN _ _ (consumes_ecdh t)). Qed.
+Lemma cN_rangesig : consumesN dec_rangesig 6176.  Proof. exact (consN _ _ consumes_rangesig). Qed.
+Lemma cN_header : consumesN dec_header 39.  Proof. exact (consN _ _ consumes_header). Qed.
+Lemma cN_u32 : consumesN dec_u32 4.
+Proof. intros s a r H. apply dmap_ok in H. destruct H as (b & H & _). apply (consumes_read_n 4) in H. unfold lenN. lia. Qed.
+Lemma cN_rct_type : consumesN dec_rct_type 1.
+Proof. intros s a r H. unfold dec_rct_type in H. apply bind_ok in H. destruct H as (t & r1 & H & H').
+  apply cN_u8 in H. repeat (destruct (_ =? _) in H'; [apply ret_ok in H'; destruct H'; subst; exact H|]). discriminate H'. Qed.
+Create HintDb cons.
+#[global] Hint Resolve cN_varint cN_u8 cN_read_u8 cN_hash cN_txout cN_signature cN_ecdh cN_rangesig cN_header cN_u32 cN_rct_type : cons.
+
+(* rho = budget bytes per input byte.  It has to cover, for every vector of the grammar, element size / minimal wire size
+   (x 4 for growing vectors: capacity 4 after the first push, and old + new buffer during a re-allocation) *)
+Definition rho_ok (sz : sizes) (gs : gsizes) (rho : N) : Prop :=
+  8 <= rho /\                                           (* Vec<VarInt> key offsets: 8 bytes per 1-byte varint *)
+  sz_txin sz <= 2 * rho /\                              (* TxIn::Gen: tag + height *)
+  sz_txin sz + 4 * g_row gs <= 35 * rho /\              (* TxIn::ToKey: tag, amount, count, key image (+ its v1 signature row) *)
+  sz_txout sz <= 34 * rho /\ sz_bulletproof sz <= 290 * rho /\ sz_bpplus sz <= 194 * rho /\ sz_rangesig sz <= 6176 * rho /\
+  4 * g_ecdh gs <= 8 * rho /\                           (* ecdh_info: vec![] + push, 8 wire bytes each *)
+  4 * g_clsag gs <= 64 * rho /\ 4 * g_mgsig gs <= 32 * rho /\
+  4 * g_row gs + 32 <= 32 * rho.                        (* MgSig.ss row: >= 1 column of 32 bytes, Vec<Key> header + the keys *)
+
+(* fixed part of the bound beyond the two nested 32 MiB reservations: first allocations of the growing vectors *)
+Definition AG (gs : gsizes) : N := 4 * (g_ecdh gs + g_row gs + g_clsag gs + g_mgsig gs) + 384.
+Definition KTX (gs : gsizes) : N := 2 * CAP + AG gs.
+
+Create HintDb pkdb.
+#[global] Hint Extern 1 (_ <= _) => lia : pkdb.
+
+Lemma pk_ret0 rho {A} (x : A) C : PK rho (iret x) C 0 (fun _ => C).
+Proof. apply pk_ret. lia. Qed.
+Ltac pk_inst := first [ eapply pk_lift; solve [eauto with cons] | apply pk_ret0 | solve [eauto with pkdb] ].
+Ltac pk_chain Kside :=
+  repeat lazymatch goal with
+         | |- PK _ (ibind (ibind _ _) _) ?C _ _ => eapply (pk_bind _ _ _ C _ (fun _ => C)); [|intros ?; cbv beta]
+         | |- PK _ (ibind _ _) _ _ _ => eapply pk_bind; [eapply pk_K; [pk_inst|Kside]|intros ?; cbv beta]
+         | |- PK _ (if ?c then _ else _) _ _ _ => destruct c eqn:?
+         | |- PK _ (match ?x with _ => _ end) _ _ _ => destruct x
+         | |- PK _ (ifail _) _ _ _ => apply pk_fail
+         end.
+Ltac kside := unfold KTX, AG; lia.
+
+Definition ce_txin (gs : gsizes) (i : txin) : N := match i with Gen _ => 0 | ToKey _ _ _ => 4 * g_row gs end.
+
+Section Grammar.
+  Variables (sz : sizes) (gs : gsizes) (rho : N).
+  Hypothesis Hr : rho_ok sz gs rho.
+  Ltac hr := pose proof Hr as Hr'; unfold rho_ok in Hr'.
+
+  Lemma pkv_varint C : PK rho (ivec 8 (ilift dec_varint)) C CAP (fun _ => C + rho).
+  Proof.
+    hr. eapply pk_weaken; [apply (pk_vec rho (ilift dec_varint) 0 8 zero C)| | |]; try lia.
+    - intros C'. eapply pk_cred; [eapply pk_lift; eauto with cons|]. intros a. unfold zero. lia.
+    - intros l. generalize (lsum zero l). intros. lia.
+  Qed.
+  Lemma pkv_hash C : PK rho (ivec 32 (ilift dec_hash)) C CAP (fun _ => C + rho).
+  Proof.
+    hr. eapply pk_weaken; [apply (pk_vec rho (ilift dec_hash) 0 32 zero C)| | |]; try lia.
+    - intros C'. eapply pk_cred; [eapply pk_lift; eauto with cons|]. intros a. unfold zero. lia.
+    - intros l. generalize (lsum zero l). intros. lia.
+  Qed.
+  Lemma pkv_u8 C : PK rho (ivec 1 (ilift read_u8)) C CAP (fun _ => C + rho).
+  Proof.
+    hr. eapply pk_weaken; [apply (pk_vec rho (ilift read_u8) 0 1 zero C)| | |]; try lia.
+    - intros C'. eapply pk_cred; [eapply pk_lift; eauto with cons|]. intros a. unfold zero. lia.
+    - intros l. generalize (lsum zero l). intros. lia.
+  Qed.
+  (* a sized vector of keys leaves (32 rho - 32) per key *)
+  Lemma pks_hash n C : PK rho (isized 32 n (ilift dec_hash)) C CAP (fun _ => C + (32 * rho - 32) * n).
+  Proof.
+    hr. eapply pk_weaken; [apply (pk_sized rho (ilift dec_hash) 0 32 (32 * rho - 32) zero n C)| | |]; try lia.
+    - intros C'. eapply pk_cred; [eapply pk_lift; eauto with cons|]. intros a. unfold zero. lia.
+    - intros l. generalize (lsum zero l). intros. lia.
+  Qed.
+  Lemma pks_hash0 n C : PK rho (isized 32 n (ilift dec_hash)) C CAP (fun _ => C).
+  Proof. eapply pk_cred; [apply pks_hash|]. intros l. cbv beta. generalize ((32 * rho - 32) * n). intros. lia. Qed.
+  Hint Resolve pkv_varint pkv_hash pkv_u8 pks_hash0 : pkdb.
+
+  Lemma pk_txin C : PK rho idec_txin C CAP (fun a => C + sz_txin sz + ce_txin gs a).
+  Proof.
+    hr. unfold idec_txin. pk_chain lia; apply pk_ret; cbn [ce_txin]; lia.
+  Qed.
+  Lemma pkv_txin C : PK rho (ivec (sz_txin sz) idec_txin) C (CAP + CAP) (fun l => C + rho + lsum (ce_txin gs) l).
+  Proof. apply pk_vec. intros C'. apply pk_txin. Qed.
+  Lemma pkv_txout C : PK rho (ivec (sz_txout sz) (ilift dec_txout)) C CAP (fun _ => C + rho).
+  Proof.
+    hr. eapply pk_weaken; [apply (pk_vec rho (ilift dec_txout) 0 (sz_txout sz) zero C)| | |]; try lia.
+    - intros C'. eapply pk_cred; [eapply pk_lift; eauto with cons|]. intros a. unfold zero. lia.
+    - intros l. generalize (lsum zero l). intros. lia.
+  Qed.
+  Hint Resolve pkv_txin pkv_txout : pkdb.
+
+  Lemma pk_prefix C : PK rho (idec_prefix sz) C (CAP + CAP) (fun p => C + lsum (ce_txin gs) (inputs p)).
+  Proof. hr. unfold idec_prefix. pk_chain lia. apply pk_ret. cbn [inputs]. lia. Qed.
+
+  Lemma pk_bulletproof C : PK rho idec_bulletproof C CAP (fun _ => C + sz_bulletproof sz + 0).
+  Proof. hr. unfold idec_bulletproof. pk_chain lia. apply pk_ret. lia. Qed.
+  Lemma pk_bpplus C : PK rho idec_bpplus C CAP (fun _ => C + sz_bpplus sz + 0).
+  Proof. hr. unfold idec_bpplus. pk_chain lia. apply pk_ret. lia. Qed.
+  Lemma pkv_bp C : PK rho (ivec (sz_bulletproof sz) idec_bulletproof) C (CAP + CAP) (fun _ => C).
+  Proof.
+    eapply pk_cred; [apply (pk_vec rho idec_bulletproof CAP (sz_bulletproof sz) zero C)|].
+    - intros C'. apply pk_bulletproof.
+    - intros l. cbv beta. generalize (lsum zero l). intros. lia.
+  Qed.
+  Lemma pks_bp n C : PK rho (isized (sz_bulletproof sz) n idec_bulletproof) C (CAP + CAP) (fun _ => C).
+  Proof.
+    eapply pk_cred; [apply (pk_sized rho idec_bulletproof CAP (sz_bulletproof sz) 0 zero n C)|].
+    - intros C'. eapply pk_cred; [apply pk_bulletproof|]. intros a. unfold zero. lia.
+    - intros l. cbv beta. generalize (lsum zero l). intros. lia.
+  Qed.
+  Lemma pkv_bpp C : PK rho (ivec (sz_bpplus sz) idec_bpplus) C (CAP + CAP) (fun _ => C).
+  Proof.
+    eapply pk_cred; [apply (pk_vec rho idec_bpplus CAP (sz_bpplus sz) zero C)|].
+    - intros C'. apply pk_bpplus.
+    - intros l. cbv beta. generalize (lsum zero l). intros. lia.
+  Qed.
+  Lemma pks_rangesig n C : PK rho (isized (sz_rangesig sz) n (ilift dec_rangesig)) C CAP (fun _ => C).
+  Proof.
+    hr. eapply pk_weaken; [apply (pk_sized rho (ilift dec_rangesig) 0 (sz_rangesig sz) 0 zero n C)| | |]; try lia.
+    - intros C'. eapply pk_cred; [eapply pk_lift; eauto with cons|]. intros a. unfold zero. lia.
+    - intros l. generalize (lsum zero l). intros. lia.
+  Qed.
+  Hint Resolve pkv_bp pks_bp pkv_bpp pks_rangesig : pkdb.
+
+  (* growing vectors *)
+  Lemma pkg_ecdh t n C : PK rho (igrow (g_ecdh gs) n (ilift (dec_ecdh t))) C (4 * g_ecdh gs) (fun _ => C).
+  Proof.
+    hr. eapply pk_weaken; [apply (pk_grow rho (ilift (dec_ecdh t)) 0 (g_ecdh gs) zero n C)| | |]; try lia.
+    - intros C'. eapply pk_cred; [eapply pk_lift; eauto with cons|]. intros a. unfold zero. lia.
+    - intros l. generalize (lsum zero l). intros. lia.
+  Qed.
+  Lemma pkg_keys n C : PK rho (igrow 32 n (ilift dec_hash)) C 128 (fun _ => C).
+  Proof.
+    hr. eapply pk_weaken; [apply (pk_grow rho (ilift dec_hash) 0 32 zero n C)| | |]; try lia.
+    - intros C'. eapply pk_cred; [eapply pk_lift; eauto with cons|]. intros a. unfold zero. lia.
+    - intros l. generalize (lsum zero l). intros. lia.
+  Qed.
+  Lemma pkg_sigs n C : PK rho (igrow 64 n (ilift dec_signature)) C 256 (fun _ => C).
+  Proof.
+    hr. eapply pk_weaken; [apply (pk_grow rho (ilift dec_signature) 0 64 zero n C)| | |]; try lia.
+    - intros C'. eapply pk_cred; [eapply pk_lift; eauto with cons|]. intros a. unfold zero. lia.
+    - intros l. generalize (lsum zero l). intros. lia.
+  Qed.
+  Hint Resolve pkg_ecdh pkg_keys pkg_sigs : pkdb.
+
+  Lemma pk_rct_base n_in n_out C : PK rho (idec_rct_base gs n_in n_out) C (CAP + 4 * g_ecdh gs) (fun _ => C).
+  Proof.
+    hr. unfold idec_rct_base. eapply pk_bind; [eapply pk_K; [pk_inst|lia]|]. intros t. cbv beta.
+    destruct t; cbn [rct_type_eqb]; pk_chain lia; apply pk_ret; lia.
+  Qed.
+
+  Lemma pk_clsag m C : PK rho (idec_clsag m) C 128 (fun _ => C + 4 * g_clsag gs + 0).
+  Proof. hr. unfold idec_clsag. pk_chain lia. apply pk_ret. lia. Qed.
+  Lemma pkg_clsags m n C : PK rho (igrow (g_clsag gs) n (idec_clsag m)) C (128 + 4 * g_clsag gs) (fun _ => C).
+  Proof.
+    eapply pk_cred; [apply (pk_grow rho (idec_clsag m) 128 (g_clsag gs) zero n C)|].
+    - intros C'. apply pk_clsag.
+    - intros l. cbv beta. generalize (lsum zero l). intros. lia.
+  Qed.
+
+  (* a row of MgSig.ss: `cols` keys, cols >= 1 (2 or 1 + inputs in dec_rct_prunable) *)
+  Lemma pk_row cols C : 1 <= cols -> PK rho (isized 32 cols (ilift dec_hash)) C CAP (fun _ => C + 4 * g_row gs + 0).
+  Proof.
+    intros Hc. hr. eapply pk_cred; [apply pks_hash|]. intros l. cbv beta.
+    assert ((32 * rho - 32) * 1 <= (32 * rho - 32) * cols) by (apply N.mul_le_mono_l; exact Hc). lia.
+  Qed.
+  Lemma pk_mgsig m cols C : 1 <= cols -> PK rho (idec_mgsig gs m cols) C (CAP + 4 * g_row gs) (fun _ => C + 4 * g_mgsig gs + 0).
+  Proof.
+    intros Hc. hr. unfold idec_mgsig. eapply pk_bind.
+    - apply (pk_grow rho (isized 32 cols (ilift dec_hash)) CAP (g_row gs) zero (m + 1) C). intros C'. now apply pk_row.
+    - intros ss. cbv beta. pk_chain lia. apply pk_ret. generalize (lsum zero ss). intros. lia.
+  Qed.
+  Lemma pkg_mgsigs m cols n C : 1 <= cols ->
+    PK rho (igrow (g_mgsig gs) n (idec_mgsig gs m cols)) C (CAP + 4 * g_row gs + 4 * g_mgsig gs) (fun _ => C).
+  Proof.
+    intros Hc. eapply pk_cred; [apply (pk_grow rho (idec_mgsig gs m cols) (CAP + 4 * g_row gs) (g_mgsig gs) zero n C)|].
+    - intros C'. now apply pk_mgsig.
+    - intros l. cbv beta. generalize (lsum zero l). intros. lia.
+  Qed.
+  Hint Resolve pkg_clsags pkg_mgsigs : pkdb.
+
+  Lemma pk_rct_prunable t n_in n_out mixin C :
+    PK rho (idec_rct_prunable sz gs t n_in n_out mixin) C (KTX gs) (fun _ => C).
+  Proof.
+    hr. unfold idec_rct_prunable.
+    destruct t; cbn [is_rct_bp is_rct_bp_plus uses_clsag is_simple_or_bp has_p_pseudo];
+      pk_chain kside; apply pk_ret; lia.
+  Qed.
+End Grammar.
